@@ -505,6 +505,39 @@ pub fn run(ctx: &mut Ctx) {
         ensure!(hi16.iter().all(|f| *f == [i16::MAX, i16::MIN]), "{} with k = {}: [i16; 2] sums landing on MAX / MIN give {:?}", what, k, hi16);
         Ok(())
     });
+    // write is a copy: whatever bit patterns the source frames hold (NaN with any payload, infinities, -0.0, subnormals) arrive
+    // unchanged; equilibrium overwrites them all
+    #[derive(Clone, Debug, Serialize, Deserialize)]
+    struct BitsCase {
+        len: usize,
+        rot: usize,
+    }
+    let cases: Vec<BitsCase> = (0..=9usize).flat_map(|len| (0..8usize).map(move |rot| BitsCase { len, rot })).collect();
+    ctx.enumerate("ops/write-copies-every-bit-pattern", true, cases.into_iter(), |c: &BitsCase, st: &mut Stats| {
+        st.nt(c.len > 0);
+        const P32: [u32; 8] = [0x7fc0_0000, 0xffc0_0001, 0x7f80_0000, 0xff80_0000, 0x8000_0000, 0x0000_0001, 0x7fa0_1234, 0x3f80_0000];
+        const P64: [u64; 8] = [0x7ff8_0000_0000_0000, 0xfff8_0000_0000_0001, 0x7ff0_0000_0000_0000, 0xfff0_0000_0000_0000, 0x8000_0000_0000_0000, 1, 0x7ff4_0000_0000_1234, 0x3ff0_0000_0000_0000];
+        let b32: Vec<[f32; 2]> = (0..c.len).map(|i| [f32::from_bits(P32[(i + c.rot) % 8]), f32::from_bits(P32[(i * 3 + c.rot + 1) % 8])]).collect();
+        let m32: Vec<f32> = (0..c.len).map(|i| f32::from_bits(P32[(i + c.rot) % 8])).collect();
+        let b64: Vec<[f64; 4]> = (0..c.len).map(|i| core::array::from_fn(|ch| f64::from_bits(P64[(i + ch + c.rot) % 8]))).collect();
+        let (mut a32, mut am, mut a64) = (vec![[0.25f32, -0.5]; c.len], vec![0.75f32; c.len], vec![[0.125f64; 4]; c.len]);
+        ds::write(&mut a32[..], &b32[..]);
+        ds::write(&mut am[..], &m32[..]);
+        ds::write(&mut a64[..], &b64[..]);
+        for i in 0..c.len {
+            for ch in 0..2 {
+                ensure!(a32[i][ch].to_bits() == b32[i][ch].to_bits(), "write of [f32; 2] frames: element {} channel {} arrives as bits {:#x}, the source holds {:#x}", i, ch, a32[i][ch].to_bits(), b32[i][ch].to_bits());
+            }
+            ensure!(am[i].to_bits() == m32[i].to_bits(), "write of f32 frames: element {} arrives as bits {:#x}, the source holds {:#x}", i, am[i].to_bits(), m32[i].to_bits());
+            for ch in 0..4 {
+                ensure!(a64[i][ch].to_bits() == b64[i][ch].to_bits(), "write of [f64; 4] frames: element {} channel {} arrives as bits {:#x}, the source holds {:#x}", i, ch, a64[i][ch].to_bits(), b64[i][ch].to_bits());
+            }
+        }
+        ds::equilibrium(&mut a32[..]);
+        ds::equilibrium(&mut a64[..]);
+        ensure!(a32.iter().all(|f| f.iter().all(|x| x.to_bits() == 0)) && a64.iter().all(|f| f.iter().all(|x| x.to_bits() == 0)), "equilibrium over non-finite content leaves {:?} / {:?}", a32, a64);
+        Ok(())
+    });
     let strat = (0usize..8, 0usize..7, 0usize..300, 0usize..300, any::<u32>(), any::<bool>()).prop_map(|(t, o, la, lb, salt, same)| OpCase {
         ty: FRAME_TYS[t],
         op: SLICE_OPS[o],
